@@ -546,6 +546,22 @@ func (x *run) scenario(sc scen) {
 			fmt.Fprintf(os.Stderr, "endpoint down at %v\n", time.Since(ep.t0))
 		}
 	}
+	// a connection in pub/sub mode that unsubscribes from channels / a pattern it never subscribed to
+	// (liveSubscription hands every name to pubsub.unregister): nobody else may lose anything.
+	// S2 is the only subscriber of c502 and S3 the only one of the pattern at this point.
+	if xc, err := s.Dial(); err == nil {
+		defer xc.Close()
+		xc.Send("SUBSCRIBE", "c599")
+		xc.Read()
+		xc.Send("UNSUBSCRIBE", "c502", "c501")
+		xc.Read()
+		xc.Read()
+		xc.Send("PUNSUBSCRIBE", "c5*")
+		if v, err := xc.Read(); err != nil || v.IsErr() {
+			fail("correspondence", "setup", fmt.Sprintf("foreign PUNSUBSCRIBE: %v %v", v.String(), err), nil, nil)
+			return
+		}
+	}
 	late := []*receiver{
 		{Name: "S4 late SUBSCRIBE c501", Kind: "sub", Chans: []string{"c501"}, Late: true},
 		{Name: "L3 late live big", Kind: "live", Chans: []string{"big"}, Late: true},
@@ -635,7 +651,12 @@ func (x *run) scenario(sc scen) {
 		r.Dist("receiver:" + kind)
 		if !eqInts(got, want) {
 			cl := classify(got, want)
-			fail("oracle", kind+"-"+cl, fmt.Sprintf("%s: received %d notifications, the writes (in appendonly.aof order) generated %d; first difference at position %d", who, len(got), len(want), firstDiff(got, want)), ints(got), ints(want))
+			sig := kind + "-" + cl
+			if cl == "lost" && (kind == "sub" || kind == "psub") {
+				// other connections have sent (P)UNSUBSCRIBE for this receiver's channels without being subscribed
+				sig = "pubsub-lost-after-foreign-unsubscribe"
+			}
+			fail("oracle", sig, fmt.Sprintf("%s: received %d notifications, the writes (in appendonly.aof order) generated %d; first difference at position %d", who, len(got), len(want), firstDiff(got, want)), ints(got), ints(want))
 		}
 	}
 	// webhooks
@@ -770,6 +791,7 @@ func (x *run) scenario(sc scen) {
 					evs = append(evs, reg)
 				}
 				evs = append(evs, "r"+st.cid+".90") // another subscriber of the channel
+				evs = append(evs, "r599.91", "u"+st.cid+".91", "U5.91") // the foreign (P)UNSUBSCRIBE of connection X
 				cnt := 0
 				for _, w := range ws {
 					if w.Key == "fleet" && inside(st.area, w.Lat, w.Lon) {
@@ -790,6 +812,283 @@ func (x *run) scenario(sc scen) {
 	r.Sample(4, map[string]interface{}{"scenario": sc, "writes": total, "hA_requests": len(ep.hits("hA")), "hA_expected": len(want200["hA"])})
 	r.Dist(fmt.Sprintf("scenario:writers=%d", sc.Writers))
 	r.TracesImpl++
+}
+
+// ---- pub/sub churn: PUBLISH interleaved with (P)SUBSCRIBE / (P)UNSUBSCRIBE, including unsubscribing from
+// names the connection is not subscribed to ------------------------------------------------------------
+
+type pop struct {
+	Op   string `json:"op"` // sub psub unsub punsub pub
+	Conn int    `json:"conn,omitempty"`
+	Name string `json:"name"`
+	N    int    `json:"n,omitempty"`
+}
+
+type pconn struct {
+	c    *srv.Conn
+	mu   sync.Mutex
+	got  map[string][]int // per stream: "=c701" exact, "c7*" pattern
+	all  []int
+	acks chan string
+	bad  string
+}
+
+func (pc *pconn) loop() {
+	for {
+		pc.c.Timeout = 60 * time.Second
+		v, err := pc.c.Read()
+		if err != nil {
+			return
+		}
+		if v.Kind != '*' || len(v.Array) < 3 {
+			pc.mu.Lock()
+			pc.bad = "unexpected frame " + v.String()
+			pc.mu.Unlock()
+			continue
+		}
+		switch v.Array[0].Str {
+		case "message":
+			n, _ := strconv.Atoi(strings.TrimPrefix(v.Array[2].Str, "m"))
+			pc.mu.Lock()
+			pc.got["="+v.Array[1].Str] = append(pc.got["="+v.Array[1].Str], n)
+			pc.all = append(pc.all, n)
+			pc.mu.Unlock()
+		case "pmessage":
+			n, _ := strconv.Atoi(strings.TrimPrefix(v.Array[3].Str, "m"))
+			pc.mu.Lock()
+			pc.got[v.Array[1].Str] = append(pc.got[v.Array[1].Str], n)
+			pc.all = append(pc.all, n)
+			pc.mu.Unlock()
+		default:
+			pc.acks <- v.Array[0].Str + " " + v.Array[1].Str
+		}
+	}
+}
+
+func patMatches(pat, ch string) bool { return strings.HasPrefix(ch, strings.TrimSuffix(pat, "*")) }
+
+func (x *run) churn(name string, nconn int, ops []pop) {
+	x.n++
+	r := x.r
+	cas := map[string]interface{}{"name": name, "connections": nconn, "ops": ops}
+	fail := func(kind, sig, what string, impl, mod interface{}) {
+		r.Fail(hx.Failure{Kind: kind, Signature: sig, What: what, Case: cas, Impl: impl, Model: mod})
+	}
+	s, err := srv.Start(filepath.Join(x.cfg.Work, fmt.Sprintf("c10-%d", x.n)), "--appendonly", "no")
+	if err != nil {
+		fail("correspondence", "server-start", err.Error(), nil, nil)
+		return
+	}
+	defer s.Kill()
+	pub := s.MustDial()
+	defer pub.Close()
+	conns := make([]*pconn, nconn)
+	subs := make([]map[string]bool, nconn)  // exact
+	psubs := make([]map[string]bool, nconn) // patterns
+	owed := make([]map[string][]int, nconn)
+	owedAll := make([][]int, nconn)
+	foreign := map[string]bool{} // names that were unsubscribed by a connection not subscribed to them
+	var evs []string
+	for i := range conns {
+		c, err := s.Dial()
+		if err != nil {
+			fail("correspondence", "setup", err.Error(), nil, nil)
+			return
+		}
+		defer c.Close()
+		conns[i] = &pconn{c: c, got: map[string][]int{}, acks: make(chan string, 64)}
+		subs[i], psubs[i], owed[i] = map[string]bool{}, map[string]bool{}, map[string][]int{}
+		// enter pub/sub mode through a private channel nobody publishes to
+		c.Send("SUBSCRIBE", fmt.Sprintf("c99%d", i))
+		if v, err := c.Read(); err != nil || v.IsErr() {
+			fail("correspondence", "setup", fmt.Sprintf("SUBSCRIBE: %v %v", v.String(), err), nil, nil)
+			return
+		}
+		evs = append(evs, fmt.Sprintf("r99%d.%d", i, i))
+		go conns[i].loop()
+	}
+	ack := func(i int, want string) bool {
+		select {
+		case a := <-conns[i].acks:
+			if a != want {
+				fail("correspondence", "pubsub-ack", fmt.Sprintf("connection %d: acknowledgement %q, expected %q", i, a, want), a, want)
+				return false
+			}
+			return true
+		case <-time.After(5 * time.Second):
+			fail("oracle", "pubsub-no-ack", fmt.Sprintf("connection %d: no acknowledgement %q", i, want), nil, want)
+			return false
+		}
+	}
+	cid := func(name string) string { return strings.TrimSuffix(strings.TrimPrefix(name, "c"), "*") }
+	npub := 0
+	for _, o := range ops {
+		switch o.Op {
+		case "sub":
+			conns[o.Conn].c.Send("SUBSCRIBE", o.Name)
+			if !ack(o.Conn, "subscribe "+o.Name) {
+				return
+			}
+			subs[o.Conn][o.Name] = true
+			evs = append(evs, fmt.Sprintf("r%s.%d", cid(o.Name), o.Conn))
+		case "psub":
+			conns[o.Conn].c.Send("PSUBSCRIBE", o.Name)
+			if !ack(o.Conn, "psubscribe "+o.Name) {
+				return
+			}
+			psubs[o.Conn][o.Name] = true
+			evs = append(evs, fmt.Sprintf("R%s.%d", cid(o.Name), o.Conn))
+		case "unsub":
+			conns[o.Conn].c.Send("UNSUBSCRIBE", o.Name)
+			if !ack(o.Conn, "unsubscribe "+o.Name) {
+				return
+			}
+			if !subs[o.Conn][o.Name] {
+				foreign["="+o.Name] = true
+				r.Dist("churn:foreign-unsubscribe")
+			}
+			delete(subs[o.Conn], o.Name)
+			evs = append(evs, fmt.Sprintf("u%s.%d", cid(o.Name), o.Conn))
+		case "punsub":
+			conns[o.Conn].c.Send("PUNSUBSCRIBE", o.Name)
+			if !ack(o.Conn, "punsubscribe "+o.Name) {
+				return
+			}
+			if !psubs[o.Conn][o.Name] {
+				foreign[o.Name] = true
+				r.Dist("churn:foreign-punsubscribe")
+			}
+			delete(psubs[o.Conn], o.Name)
+			evs = append(evs, fmt.Sprintf("U%s.%d", cid(o.Name), o.Conn))
+		case "pub":
+			npub++
+			want := 0
+			for i := range conns {
+				if subs[i][o.Name] {
+					owed[i]["="+o.Name] = append(owed[i]["="+o.Name], o.N)
+					owedAll[i] = append(owedAll[i], o.N)
+					want++
+				}
+				for p := range psubs[i] {
+					if patMatches(p, o.Name) {
+						owed[i][p] = append(owed[i][p], o.N)
+						owedAll[i] = append(owedAll[i], o.N)
+						want++
+					}
+				}
+			}
+			v, err := pub.Do("PUBLISH", o.Name, "m"+strconv.Itoa(o.N))
+			if err != nil || v.Kind != ':' {
+				fail("correspondence", "pubsub-publish", fmt.Sprintf("PUBLISH %s: %v %v", o.Name, v.String(), err), nil, nil)
+				return
+			}
+			if int(v.Int) != want {
+				sig := "pubsub-publish-count"
+				if int(v.Int) < want {
+					sig = "pubsub-lost-after-foreign-unsubscribe"
+				}
+				fail("oracle", sig, fmt.Sprintf("PUBLISH %s m%d reports %d receivers; %d acknowledged subscriptions match it", o.Name, o.N, v.Int, want), v.Int, want)
+			}
+			evs = append(evs, fmt.Sprintf("s%s.%d", cid(o.Name), o.N))
+			for k := 0; k < 2*nconn+2; k++ {
+				evs = append(evs, "a")
+			}
+			for i := range conns {
+				evs = append(evs, fmt.Sprintf("d%d", i))
+			}
+		}
+	}
+	// wait for the deliveries, then a grace period for extras
+	deadline := time.Now().Add(4 * time.Second)
+	for time.Now().Before(deadline) {
+		done := true
+		for i, pc := range conns {
+			pc.mu.Lock()
+			if len(pc.all) < len(owedAll[i]) {
+				done = false
+			}
+			pc.mu.Unlock()
+		}
+		if done {
+			break
+		}
+		time.Sleep(2 * time.Millisecond)
+	}
+	time.Sleep(60 * time.Millisecond)
+	for i, pc := range conns {
+		pc.mu.Lock()
+		got, all, bad := pc.got, append([]int{}, pc.all...), pc.bad
+		pc.mu.Unlock()
+		if bad != "" {
+			fail("correspondence", "receiver-frame", fmt.Sprintf("connection %d: %s", i, bad), nil, nil)
+		}
+		streams := map[string]bool{}
+		for k := range got {
+			streams[k] = true
+		}
+		for k := range owed[i] {
+			streams[k] = true
+		}
+		for k := range streams {
+			r.Count(fmt.Sprintf("%s|conn%d|%s|%s", name, i, k, ints(owed[i][k])), len(owed[i][k]) >= 2)
+			r.Dist("receiver:churn")
+			if !eqInts(got[k], owed[i][k]) {
+				cl := classify(got[k], owed[i][k])
+				sig := "pubsub-" + cl
+				if cl == "lost" && foreign[k] {
+					sig = "pubsub-lost-after-foreign-unsubscribe"
+				}
+				fail("oracle", sig, fmt.Sprintf("connection %d, subscription %s: received %s; the publishes made while it was subscribed (acknowledged, not unsubscribed by itself) are %s", i, strings.TrimPrefix(k, "="), ints(got[k]), ints(owed[i][k])), ints(got[k]), ints(owed[i][k]))
+			}
+		}
+		rep := x.drv.Ask("pubsub", strconv.Itoa(i), strings.Join(evs, ","))
+		if mo := parseKV(rep, "out"); !eqInts(mo, all) {
+			fail("correspondence", "pubsub-model", fmt.Sprintf("churn, connection %d: received %s, the model delivers %s", i, ints(all), ints(mo)), ints(all), rep)
+		}
+	}
+	r.Dist("scenario:churn")
+	r.TracesImpl++
+}
+
+func churnCorpus() (int, []pop) {
+	return 4, []pop{
+		{Op: "sub", Conn: 0, Name: "c701"}, {Op: "psub", Conn: 1, Name: "c8*"}, {Op: "sub", Conn: 2, Name: "c701"}, {Op: "sub", Conn: 2, Name: "c702"},
+		{Op: "pub", Name: "c701", N: 1}, {Op: "pub", Name: "c801", N: 2}, {Op: "pub", Name: "c702", N: 3},
+		// X = connection 3 unsubscribes from everything it never subscribed to
+		{Op: "unsub", Conn: 3, Name: "c702"}, {Op: "punsub", Conn: 3, Name: "c8*"}, {Op: "unsub", Conn: 3, Name: "c701"},
+		{Op: "pub", Name: "c701", N: 4}, {Op: "pub", Name: "c801", N: 5}, {Op: "pub", Name: "c702", N: 6},
+		// connection 2 leaves c701 only: connection 0 becomes its sole subscriber; then X again
+		{Op: "unsub", Conn: 2, Name: "c701"}, {Op: "pub", Name: "c701", N: 7}, {Op: "pub", Name: "c702", N: 8},
+		{Op: "unsub", Conn: 3, Name: "c701"}, {Op: "unsub", Conn: 2, Name: "c701"}, {Op: "pub", Name: "c701", N: 9},
+		// X subscribes and unsubscribes for real; a second foreign punsubscribe by a subscriber of something else
+		{Op: "sub", Conn: 3, Name: "c701"}, {Op: "pub", Name: "c701", N: 10}, {Op: "unsub", Conn: 3, Name: "c701"}, {Op: "pub", Name: "c701", N: 11},
+		{Op: "punsub", Conn: 0, Name: "c8*"}, {Op: "pub", Name: "c802", N: 12}, {Op: "punsub", Conn: 1, Name: "c8*"}, {Op: "pub", Name: "c802", N: 13},
+	}
+}
+
+func randomChurn(rng *rand.Rand) (int, []pop) {
+	nconn := 2 + rng.Intn(3)
+	chans := []string{"c701", "c702", "c801"}
+	pats := []string{"c7*", "c8*"}
+	var ops []pop
+	n := 0
+	for i := 0; i < 30+rng.Intn(30); i++ {
+		c := rng.Intn(nconn)
+		switch k := rng.Intn(100); {
+		case k < 40:
+			n++
+			ops = append(ops, pop{Op: "pub", Name: chans[rng.Intn(len(chans))], N: n})
+		case k < 58:
+			ops = append(ops, pop{Op: "sub", Conn: c, Name: chans[rng.Intn(len(chans))]})
+		case k < 68:
+			ops = append(ops, pop{Op: "psub", Conn: c, Name: pats[rng.Intn(len(pats))]})
+		case k < 88:
+			ops = append(ops, pop{Op: "unsub", Conn: c, Name: chans[rng.Intn(len(chans))]})
+		default:
+			ops = append(ops, pop{Op: "punsub", Conn: c, Name: pats[rng.Intn(len(pats))]})
+		}
+	}
+	return nconn, ops
 }
 
 func contains(l []string, x string) bool {
@@ -835,11 +1134,22 @@ func runC10(r *hx.Result, cfg hx.Config) {
 		{Name: "hang-then-close and reset", Writers: 4, PerWriter: 25, Scripts: map[string][]string{"hA": {"ok", "hang", "ok", "reset"}, "hB": {"reset", "ok", "ok", "hang"}}},
 		{Name: "listener down in the middle", Writers: 4, PerWriter: 30, DownMid: true},
 	}
+	// pub/sub churn first (fast, deterministic order of operations)
+	nc, ops := churnCorpus()
+	x.churn("churn: foreign and partial unsubscribes", nc, ops)
+	nchurn := 25
+	if cfg.Tier == "thorough" || cfg.Search {
+		nchurn = 400
+	}
+	for i := 0; i < nchurn; i++ {
+		nc, ops := randomChurn(rng)
+		x.churn(fmt.Sprintf("churn-%d", i), nc, ops)
+	}
 	for i := range corpus {
 		corpus[i].Seed = cfg.Seed + int64(i)
 		x.scenario(corpus[i])
 	}
-	n, budget := 5, 45*time.Second
+	n, budget := 4, 45*time.Second
 	if cfg.Tier == "thorough" {
 		n, budget = 150, 12*time.Minute
 	}
